@@ -176,6 +176,8 @@ fn sample_positions(rng_seed: usize, start: usize, len: usize) -> Vec<usize> {
 
 const WORDS: &[&str] = &[
     "fn", "let", "x", "y", "foo", "bar", "value", "return", "if", "else", "42", "0x1f", "1.5e3", "é", "日本", "🙂",
+    // numeric tokens that exercise the tokenizer's look-ahead (radix prefixes, a lone digit at the end of a text)
+    "0", "1", "0x", "0b", "0o17", "0b101", "00",
     "e\u{301}", "naïve", "\"str\"", "'c'", "`t`", "\"a\\\"b\"", "_id", "ß", "Ω",
 ];
 const OPS: &[&str] = &[
